@@ -653,7 +653,9 @@ class Interp:
         dc, kf = C.taint(a, b)
         null = zor(a.null, b.null)
         if op == "||":
-            raise Unmodelled("string concatenation")
+            if a.kind != "s" or b.kind != "s":
+                raise Unmodelled("|| on non-strings (number formatting)")
+            return Cell(null, z3.Concat(a.val, b.val), "s", dc, kf)
         if a.kind == "s" or b.kind == "s":
             raise Unmodelled("arithmetic on strings")
         isint = C.is_intlike(a) and C.is_intlike(b)
@@ -768,6 +770,13 @@ class Interp:
             return Cell(zor(a.null, eq), a.val, a.kind, dc, kf)
         if name in self.udfs:
             return self.udfs[name](*vals)
+        if name in ("SUBSTR", "SUBSTRING") and len(vals) == 3:
+            x, p, n = vals
+            pv, nv = z3.simplify(C.num(p)), z3.simplify(C.num(n))
+            if x.kind != "s" or not (z3.is_int_value(pv) and z3.is_int_value(nv)) or pv.as_long() < 1 or nv.as_long() < 0:
+                raise Unmodelled("SUBSTR form")  # 1-based start >= 1 and length >= 0 only (negative / zero positions differ by engine)
+            dc, kf = C.taint(x, p, n)
+            return Cell(x.null, z3.SubString(x.val, z3.IntVal(pv.as_long() - 1), z3.IntVal(nv.as_long())), "s", dc, kf)
         if name in ("POWER", "POW"):
             return pdshim._power(*vals)
         if name in ("ABS",):
